@@ -897,6 +897,32 @@ def bad_chunk_size(buf):
         pos += 2
     return None
 
+
+_TCHARS = re.compile(rb"^[!#$%&'*+\-.^_`|~0-9A-Za-z]+$")
+_VERSION = re.compile(rb'^HTTP/[0-9]+\.[0-9]+$')
+
+
+def bad_request_line(buf):
+    """Reference reading of the request line of the first message in ``buf`` (header block complete, so an answer is due):
+    only the plainest shape is read - three non-empty tokens separated by single blanks, no tab, backslash, NUL or byte
+    >= 0x80 in the line.  Then RFC 7230 3.1.1 leaves no room: the method is a token and the version is
+    ``HTTP/`` digits ``.`` digits (the RFC says one digit each; several are not judged).  Returns a description or None."""
+    end = buf.find(b'\r\n\r\n')
+    if end < 0:
+        return None
+    line = buf[:end].split(b'\r\n', 1)[0]
+    if not line or b'\\' in line or b'\x00' in line or b'\t' in line or any(c >= 0x80 or c < 0x20 for c in line):
+        return None
+    parts = line.split(b' ')
+    if len(parts) != 3 or not all(parts):
+        return None
+    method, target, version = parts
+    if not _TCHARS.match(method):
+        return 'method %r is not a token' % method
+    if not _VERSION.match(version):
+        return 'HTTP-version %r is not HTTP/digits.digits' % version
+    return None
+
 # ---------------------------------------------------------------------------------------------- shape counters (evidence only)
 
 _UNSENDABLE = re.compile('[\x00\r\n]|[^\x00-\xff]')
